@@ -123,6 +123,9 @@ type modelRes struct {
 }
 
 func (r modelRes) String() string {
+	if r.err != "" && r.id != "" {
+		return "err:" + r.err + "+response:" + r.id
+	}
 	if r.err != "" {
 		return "err:" + r.err
 	}
@@ -177,6 +180,9 @@ func pick(p stageProg, stage int, results []modelRes) modelRes {
 	switch {
 	case p.Ret == "error":
 		return modelRes{err: fmt.Sprintf("e%d", stage)}
+	case p.Ret == "both":
+		// a response AND an error (message chains): both are the stage's result, both are what its predecessor receives
+		return modelRes{id: fmt.Sprintf("partial%d", stage), err: fmt.Sprintf("e%d", stage)}
 	case p.Ret == "substitute" || len(results) == 0:
 		return modelRes{id: fmt.Sprintf("sub%d", stage)}
 	case p.Ret == "first":
@@ -238,6 +244,10 @@ func mkRequest(id string) *kmip.RequestMessage {
 }
 
 func respID(resp *kmip.ResponseMessage, err error) modelRes {
+	if err != nil && resp != nil {
+		r := respID(resp, nil)
+		return modelRes{id: r.String(), err: err.Error()}
+	}
 	if err != nil {
 		return modelRes{err: err.Error()}
 	}
@@ -261,6 +271,9 @@ func mkResponse(id string) *kmip.ResponseMessage {
 }
 
 func toReturn(r modelRes) (*kmip.ResponseMessage, error) {
+	if r.err != "" && r.id != "" {
+		return mkResponse(r.id), errors.New(r.err)
+	}
 	if r.err != "" {
 		return nil, errors.New(r.err)
 	}
@@ -637,6 +650,10 @@ func c19Run(c c19Case) (sig string, err error) {
 				return "trace-differs:" + c.Chain + ":" + kind, fmt.Errorf("request %d, event %d: chain did %q, the semantics require %q\n got  %v\n want %v", r, i, g, w, got, wantEvents)
 			}
 		}
+		if c.Chain == "server-message" && want.err != "" {
+			// HandleRequest turns an error of the outermost stage into an error response of its own: a response that came with it is not the caller's
+			want.id = ""
+		}
 		if outs[r].final.String() != want.String() {
 			return "final-result:" + c.Chain, fmt.Errorf("request %d: caller got %s, want %s", r, outs[r].final, want)
 		}
@@ -661,7 +678,7 @@ func c19NonTrivial(c c19Case) bool {
 func TestC19Chains(t *testing.T) {
 	const name = "TestC19Chains"
 	rec := evid.New("C19", name, "chains of 0..4 stages for the client Roundtrip chain, the server message chain and the server batch-item chain; each stage is a generated program: call the continuation 0..3 times, "+
-		"per call pass on the received or a substituted message and the received, a derived or a detached (not derived from the received one) context, on the client chain also an already cancelled one (the inner stages run all the same; only what the transport answers under it is left open), return the last/first result, a substituted result or an error; 1..4 concurrent requests share the chain; "+
+		"per call pass on the received or a substituted message and the received, a derived or a detached (not derived from the received one) context, on the client chain also an already cancelled one (the inner stages run all the same; only what the transport answers under it is left open), return the last/first result, a substituted result, an error, or (message chains) a response together with an error; 1..4 concurrent requests share the chain; "+
 		"oracle: a recursive interpreter of the same programs predicts the exact event trace (stage entries with message and context, core executions, results seen) and the caller's result; every result a stage got back is read again when the stage ends and must be unchanged; "+
 		"non-trivial = a non-last stage calls the continuation >= 2 times, or a message is substituted; distinct by case").Attach(t)
 	if rp := evid.LoadReplay(name); rp != nil {
@@ -698,7 +715,10 @@ func TestC19Chains(t *testing.T) {
 				p.Calls = append(p.Calls, callSpec{SubMsg: rapid.IntRange(0, 3).Draw(rt, "submsg") == 0, Mark: rapid.Bool().Draw(rt, "mark"), Detach: rapid.IntRange(0, 4).Draw(rt, "detach") == 0,
 					Ended: c.Chain == "client" && rapid.IntRange(0, 5).Draw(rt, "ended") == 0})
 			}
-			p.Ret = rapid.SampledFrom([]string{"last", "last", "last", "first", "substitute", "error"}).Draw(rt, "ret")
+			p.Ret = rapid.SampledFrom([]string{"last", "last", "last", "first", "substitute", "error", "both"}).Draw(rt, "ret")
+			if p.Ret == "both" && c.Chain == "server-item" {
+				p.Ret = "error" // (an item stage always returns an item together with its error: nothing new there)
+			}
 			c.Stages = append(c.Stages, p)
 		}
 		key, _ := json.Marshal(c)
